@@ -50,7 +50,7 @@ impl<'a> Visitor for V<'a> {
                 // initial record: builder seq / decoded seq
                 if let (Some(post), true) = (cx.post, cx.res.is_ok()) {
                     let want = match &cx.h.init {
-                        Init::Builder { calls } => calls.iter().rev().find_map(|c| if let BCall::Seq(s) = c { Some(*s) } else { None }).unwrap_or(1),
+                        Init::Builder { calls } | Init::BuilderReuse { calls, .. } => calls.iter().rev().find_map(|c| if let BCall::Seq(s) = c { Some(*s) } else { None }).unwrap_or(1),
                         Init::Decoded { seq, .. } => *seq,
                     };
                     if post.seq != want {
@@ -140,6 +140,7 @@ impl Property for C07 {
                         init: Init::Decoded { seq: s, pairs: vec![(b"ip".to_vec(), rlp::encode_str(&[1, 2, 3, 4])), (b"udp".to_vec(), rlp::encode_uint(9))] },
                         ops: vec![op, Op::Redecode],
                         fault_at: None,
+                    alt_keys: vec![],
                     })
                 })
             })
@@ -150,7 +151,7 @@ impl Property for C07 {
             let mut c = Choices::new(&e);
             let fam = history::gen_fam(&mut c);
             let seq = wire::gen_seq(&mut c);
-            Case::Hist(History { fam, keys: history::exhaustive_keys(fam), init: Init::Decoded { seq, pairs: vec![] }, ops: vec![Op::Redecode, Op::SetSeq { seq: wire::gen_seq(&mut c), k: 0 }, Op::Redecode], fault_at: None })
+            Case::Hist(History { fam, keys: history::exhaustive_keys(fam), init: Init::Decoded { seq, pairs: vec![] }, ops: vec![Op::Redecode, Op::SetSeq { seq: wire::gen_seq(&mut c), k: 0 }, Op::Redecode], fault_at: None, alt_keys: vec![] })
         });
         // all pairs of alphabet operations (the same call twice included) from two starting numbers
         let pairs = (if quick { vec![FamId::K256] } else { ALL_FAMS.to_vec() }).into_iter().flat_map(|fam| {
@@ -167,6 +168,7 @@ impl Property for C07 {
                         init: Init::Decoded { seq: s, pairs: vec![(b"ip".to_vec(), rlp::encode_str(&[1, 2, 3, 4])), (b"udp".to_vec(), rlp::encode_uint(9))] },
                         ops: vec![alpha[ij / n].clone(), alpha[ij % n].clone()],
                         fault_at: None,
+                    alt_keys: vec![],
                     })
                 })
             })
